@@ -210,6 +210,9 @@ def parse_terse(out):
 MEMCLASS_RE = re.compile(r"dereference failure|pointer|object bounds|deallocated|dead object|free|dealloc|memcpy|memmove|memset|memcmp|invalid|misaligned|uninit|double|never freed|with overflow|arithmetic overflow|offset|unwinding|same object|rust_alloc|rust_realloc|undefined|unreachable code", re.I)
 
 
+FRAME_RE = re.compile(r"is assignable|assigns clause|is freeable", re.I)
+
+
 def run_kani(scratch, harnesses, jobs=14, features="", log_path=None, regular=False, timeout_each=900, leak=False, nounwind=False):
     names = [h.name for h in harnesses]
     cmd = ["cargo", "kani"] + KANI_FLAGS
@@ -285,7 +288,9 @@ def classify(h, r):
             return "violation", "expected the documented panic in %s but every check passed (the call returned)" % rx.pattern
         # a memory-safety-class / arithmetic-overflow failure is never "the documented panic",
         # whatever function it sits in (debug would panic, release would wrap: seed C16-2)
-        bad = [c for c in fc if MEMCLASS_RE.search(c[0]) or not rx.search("%s @ %s" % (c[0], c[3]))]
+        # ... and neither is a write outside the (empty) assigns clause of a panic-frame wrapper,
+        # even when it sits in the very function whose panic is expected (seed C13-6)
+        bad = [c for c in fc if MEMCLASS_RE.search(c[0]) or FRAME_RE.search(c[0]) or not rx.search("%s @ %s" % (c[0], c[3]))]
         if bad:
             return "violation", "failure outside the documented panic site: " + "; ".join("%s @ %s:%d in %s" % c for c in bad[:6])
         return "pass", "only the documented panic fails (%d check[s] in %s)" % (len(fc), rx.pattern)
